@@ -31,6 +31,9 @@ type sessState struct {
 	open    bool
 	inc     int
 	toreAt  int
+	seq     int       // session number of the source
+	win     *winModel // C07 reference model of the nack window of this run
+	winOff  bool      // the outcome sequence of this run is not known exactly
 }
 
 type Oracles struct {
@@ -266,7 +269,7 @@ func (o *Oracles) onEvent(w *World, e *Event) {
 			w.violate("C03", "open-unknown-position", fmt.Sprintf("source %s opened with a position it never produced: %v", e.Ent, e.Pos))
 			return
 		}
-		o.sess[sessKey(e.Ent, e.Sess)] = &sessState{open: true, inc: e.Inc}
+		o.sess[sessKey(e.Ent, e.Sess)] = &sessState{open: true, inc: e.Inc, seq: e.Sess}
 		o.opens[e.Ent]++
 		// C03: never reopen past an unhandled record
 		for i := 0; i < e.N; i++ {
@@ -343,6 +346,7 @@ func (o *Oracles) onEvent(w *World, e *Event) {
 				if why == "dlq" {
 					w.probe("ack-after-dlq")
 				}
+				o.onWindowOutcome(w, s, id.Src, id.Idx, why == "dlq")
 			}
 			// C02 (i): durable before told
 			di, set := o.durIdx[e.Ent], o.durSet[e.Ent]
@@ -544,10 +548,13 @@ func (o *Oracles) onDurableChange(w *World, e *Event) {
 		o.durSet[sc.ID] = true
 		o.durIdx[sc.ID] = idx
 	}
-	if st, _, ok := w.db.durableStatus(PipelineID); ok {
+	if st, errText, ok := w.db.durableStatus(PipelineID); ok {
 		if len(o.statusHist) == 0 || o.statusHist[len(o.statusHist)-1] != st {
 			o.statusHist = append(o.statusHist, st)
 			w.log(Event{Kind: "STATUS", Ent: PipelineID, N: st, Note: statusName(st)})
+			if strings.Contains(errText, "nack threshold exceeded") {
+				o.onThresholdStop(w, errText)
+			}
 		}
 	}
 }
